@@ -1426,3 +1426,216 @@ func init() {
 		},
 	})
 }
+
+// Rules added after the eighth round of independently seeded changes.
+
+func init() {
+	register(&Rule{
+		ID: "reload.equality-tested-for-every-candidate", Props: []string{"C14", "C13"}, Floor: 3,
+		Doc: "in each calculateReuseIndexFor the equality test of an old rule against the new one is reached for every old candidate until an equal one is found: the call is not control-dependent on the state of the statistic-reuse search (a test skipped once a statistic donor was seen makes an unchanged rule behind that donor lose its controller / breaker)",
+		Run: func(c *Ctx) {
+			for _, bn := range builderFuncs {
+				b := c.P.Func(bn)
+				if b == nil {
+					c.AnchorLost(bn)
+					continue
+				}
+				pk := relPkg(fnPkgPath(b))
+				f := c.P.Func(pk + ".calculateReuseIndexFor")
+				if f == nil {
+					c.AnchorLost(pk + ".calculateReuseIndexFor")
+					continue
+				}
+				// loop-carried integer variables of the search (index results): phis of int type in loop headers
+				loops := loopBlocks(f)
+				var carried []ssa.Value
+				eachInstr(f, func(ins ssa.Instruction) {
+					if ph, ok := ins.(*ssa.Phi); ok && loops[ph.Block()] && isIntegerT(ph.Type()) && ph.Comment != "rangeindex" {
+						// the loop counter itself (i = i + 1) is not state of the search
+						counter := false
+						for _, e := range ph.Edges {
+							if bo, ok := e.(*ssa.BinOp); ok && bo.Op == token.ADD && (bo.X == ssa.Value(ph) || bo.Y == ssa.Value(ph)) {
+								counter = true
+							}
+						}
+						if !counter {
+							carried = append(carried, ph)
+						}
+					}
+				})
+				n := 0
+				for _, ci := range callsIn(f) {
+					cal := ci.Common().StaticCallee()
+					if cal == nil || (cal.Name() != "isEqualsTo" && cal.Name() != "Equals") || !loops[ci.Block()] {
+						continue
+					}
+					n++
+					bad := ""
+					for _, ft := range condFacts(ci.Block()) {
+						if ft.If == nil || !loops[ft.If.Block()] {
+							continue
+						}
+						for _, cv := range carried {
+							if dependsOnValue(ft.Cond, func(x ssa.Value) bool { return x == cv }) {
+								bad = canonCond(ft.Cond, ft.Truth)
+							}
+						}
+					}
+					c.Check(bad == "", fmt.Sprintf("%s / equality-test#%d", fnKey(f), n), ci.Pos(), "the equality test runs for every old candidate (it is skipped under %q, a condition on the search's own state)", bad)
+				}
+				if n == 0 {
+					c.Undecided(fnKey(f)+" / equality-test", f.Pos(), "no equality test of old against new rule inside the search loop")
+				}
+			}
+		},
+	})
+
+	register(&Rule{
+		ID: "rules.unchanged-answer-is-deep", Props: []string{"C13", "C07", "C14"}, Floor: 8,
+		Doc: "a load entry point answers 'unchanged, nothing loaded' (false with a nil error, before any update) only under reflect.DeepEqual of the cached last input and its argument: a hand-written comparison that leaves a field out keeps the old rules in force for a load that differs in that field",
+		Run: func(c *Ctx) {
+			n := 0
+			for _, m := range ruleModules {
+				for _, ln := range m.loaders {
+					f := c.P.Func(ln)
+					if f == nil {
+						c.AnchorLost(ln)
+						continue
+					}
+					var updCalls []ssa.Instruction
+					for _, ci := range callsIn(f) {
+						if cal := ci.Common().StaticCallee(); cal != nil && (strings.HasPrefix(cal.Name(), "on") && strings.HasSuffix(cal.Name(), "Update")) {
+							updCalls = append(updCalls, ci.(ssa.Instruction))
+						}
+					}
+					k := 0
+					if f.Signature.Results().Len() != 2 {
+						continue
+					}
+					errCases := returnedCases(f, 1)
+					for _, cs := range returnedCases(f, 0) {
+						cv, isC := stripConv(cs.val).(*ssa.Const)
+						if !isC || cv.Value == nil || cv.Value.String() != "false" {
+							continue
+						}
+						errNil := false
+						for _, ce := range errCases {
+							if ce.block == cs.block && isNilConst(stripConv(ce.val)) {
+								errNil = true
+							}
+						}
+						if !errNil || len(cs.block.Instrs) == 0 {
+							continue
+						}
+						// after an update call: the update's own answer, not the unchanged short-cut
+						after := false
+						for _, u := range updCalls {
+							if instrReaches(u, cs.block.Instrs[len(cs.block.Instrs)-1]) {
+								after = true
+							}
+						}
+						if after {
+							continue
+						}
+						k++
+						n++
+						deep := false
+						for _, ft := range append(append([]Fact{}, condFacts(cs.block)...), cs.extra...) {
+							call, ok := ft.Cond.(*ssa.Call)
+							if ok && ft.Truth && isExtCall(call, "reflect.DeepEqual") {
+								p0, p1 := accessPath(call.Call.Args[0]), accessPath(call.Call.Args[1])
+								if strings.Contains(p0+p1, "currentRules") {
+									deep = true
+								}
+							}
+						}
+						c.Check(deep, fmt.Sprintf("%s / unchanged#%d", fnKey(f), k), cs.block.Instrs[len(cs.block.Instrs)-1].Pos(), "the 'unchanged' answer is given under reflect.DeepEqual(cached input, argument)")
+					}
+				}
+			}
+			if n == 0 {
+				c.AnchorLost("'unchanged' returns of the rule loaders")
+			}
+		},
+	})
+}
+
+func init() {
+	register(&Rule{
+		ID: "flow.direct-threshold-verbatim", Props: []string{"C02", "C10"}, Floor: 4,
+		Doc: "the Direct calculator hands the checker the rule's threshold unchanged: every store into DirectTrafficShapingCalculator.threshold stores the constructor's threshold parameter itself, CalculateAllowedTokens returns that field, and every constructor call passes a rule's Threshold field (a threshold rounded or clamped on the way makes the reject decision differ from `tokens in window + batch <= T` for fractional T)",
+		Run: func(c *Ctx) {
+			dc := c.P.Named("core/flow.DirectTrafficShapingCalculator")
+			ctor := c.P.Func("core/flow.NewDirectTrafficShapingCalculator")
+			calc := c.P.Func("core/flow.(*DirectTrafficShapingCalculator).CalculateAllowedTokens")
+			if dc == nil || ctor == nil || calc == nil {
+				c.AnchorLost("flow DirectTrafficShapingCalculator / constructor / CalculateAllowedTokens")
+				return
+			}
+			n := 0
+			for _, s := range fieldStores(c.P, dc, "threshold") {
+				n++
+				ok := true
+				why := ""
+				for _, cs := range splitPhiCases(stripConv(s.st.Val), s.st.Block(), nil, 0) {
+					v := resolve(cs.val)
+					prm, isP := v.(*ssa.Parameter)
+					if !isP || !isFloatT(prm.Type()) {
+						ok = false
+						why = accessPath(cs.val)
+					}
+				}
+				c.Check(ok, fmt.Sprintf("%s / threshold-store#%d", fnKey(s.fn), n), s.st.Pos(), "the stored threshold is the function's threshold parameter itself (%s)", why)
+			}
+			okRet := false
+			for _, cs := range returnedCases(calc, 0) {
+				okRet = strings.HasSuffix(accessPath(stripConv(cs.val)), "{DirectTrafficShapingCalculator}.threshold")
+				if !okRet {
+					break
+				}
+			}
+			c.Check(okRet, fnKey(calc)+" / returns-threshold", calc.Pos(), "CalculateAllowedTokens returns the stored threshold")
+			k := 0
+			for _, f := range c.P.FuncsIn(modPath + "/core/flow") {
+				if isTestOrExample(f) {
+					continue
+				}
+				for _, ci := range callsIn(f) {
+					if !isStaticCallTo(ci, ctor) || len(ci.Common().Args) != 2 {
+						continue
+					}
+					k++
+					p := accessPath(stripConv(ci.Common().Args[1]))
+					c.Check(strings.HasSuffix(p, ".Threshold"), fmt.Sprintf("%s / direct-calculator#%d", fnKey(f), k), ci.Pos(), "the Direct calculator is built with %s (want the rule's Threshold)", p)
+				}
+			}
+		},
+	})
+}
+
+func init() {
+	register(&Rule{
+		ID: "system.validity-rejects-negative", Props: []string{"C13", "C07"}, Floor: 1,
+		Doc: "IsValidSystemRule accepts a rule (returns nil) only on paths where its TriggerCount was found not negative, whatever the metric type: a negative trigger is below every reading, so such a rule, once loaded, rejects all inbound traffic",
+		Run: func(c *Ctx) {
+			f := c.P.Func("core/system.IsValidSystemRule")
+			if f == nil {
+				c.AnchorLost("system.IsValidSystemRule")
+				return
+			}
+			n := 0
+			for _, cs := range returnedCases(f, 0) {
+				if !isNilConst(stripConv(cs.val)) {
+					continue
+				}
+				n++
+				fs := canonFacts(cs.block, cs.extra...)
+				ok := fs["0 <= {Rule}.TriggerCount"] || fs["0 < {Rule}.TriggerCount"]
+				c.Check(ok, fmt.Sprintf("%s / accepts#%d", fnKey(f), n), cs.block.Instrs[len(cs.block.Instrs)-1].Pos(), "a rule is accepted only where TriggerCount >= 0 was established (facts: %s)", factList(fs))
+			}
+			if n == 0 {
+				c.Violate(fnKey(f)+" / accepts", f.Pos(), "IsValidSystemRule accepts no rule")
+			}
+		},
+	})
+}
